@@ -270,6 +270,20 @@ def witness_still_fails(k):
     return any(x.get("known") == k["witness"] for x in _scen()["failures"])
 
 
+def service_lookup(run: Run):
+    """'For every RPC ... a sample is emitted': generate_sample_specs must find every service of the API - the services map is keyed by the
+    service's own proto package, which is below the API's root package for a service in a sub-package."""
+    import ast as _ast
+    from vf.core import find_def
+    fdef, h = find_def("gapic/samplegen/samplegen.py", "generate_sample_specs")
+    run.functions.append({"qualname": "generate_sample_specs (service / method lookup)", "source": "gapic/samplegen/samplegen.py", "sha256_16": h, "obligations": "AST pattern"})
+    by_root = [n for n in _ast.walk(fdef) if isinstance(n, _ast.Subscript) and _ast.unparse(n.value) in ("api_schema.services", "api_schema.all_methods")
+               and "api_schema.naming.proto_package" in _ast.unparse(n.slice)]
+    run.results.append(Result("samples.specs:services-found-by-their-own-package", "open" if by_root else "discharged", "ast", 0, "structural",
+                              detail=f"{len(by_root)} look-ups keyed by the API's root package: " + "; ".join(_ast.unparse(n)[:90] for n in by_root[:2]),
+                              group="samples.specs:service-lookup"))
+
+
 def run(run: Run):
     run.witness_check = witness_still_fails
     stage1(run)
@@ -277,6 +291,7 @@ def run(run: Run):
     method_name_agreement(run)
     calling_forms(run)
     request_setup_lines(run)
+    service_lookup(run)
     run.native_standin("props.C14_native", "scenarios",
                        "8 rpcs (unary with required fields of every kind + oneof + resource reference, paged, LRO, server / client / bidi streaming, void, request from "
                        "another package) x sync/asyncio: compile, run against a loopback channel, decode the request, compare metadata and docstring with the file")
